@@ -53,6 +53,12 @@ ORIGINS = [[0, 0, 0], [1, 1, 1], [1, 0, 0], [0.5, 0.25, 0.125], [0, 0, 1], [2, 0
 def cases(ctx):
     rng = ctx.rng
     normals = [n for n in itertools.product([-1, 0, 1], repeat=3) if n != (0, 0, 0)]
+    # every sign pattern of one triangle (the model's 27-row table against the code), on the three axes, with
+    # unit and non-unit normals, and with the triangle's winding either way
+    for sg in itertools.product([-1, 0, 1], repeat=3):
+        for axis in range(3):
+            yield {"kind": "pattern", "signs": list(sg), "axis": axis, "scale": [1, 3, 0.25][axis], "flip": bool(axis % 2),
+                   "h": [1.0, 0.5, 2.0][(axis + sum(sg)) % 3]}
     # planes that miss the solid, alone and followed by a cutting plane (capping must not scramble the mesh)
     for name in ("ico", "cyl", "box"):
         yield {"kind": "slice", "mesh": name, "normal": [0, 0, 1], "origin": [0, 0, -5], "scale": 1, "cap": True}
@@ -90,9 +96,32 @@ def _general(m, n, o):
 def run_case(c):
     import trimesh
     from trimesh import intersections
-    m = meshes()[c["mesh"]]
     k = c["kind"]
     o = {}
+    if k == "pattern":
+        ax = c["axis"]
+        base = np.array([[0.0, 0.0], [2.0, 0.5], [0.5, 2.0]])
+        V = np.zeros((3, 3))
+        V[:, [i for i in range(3) if i != ax]] = base
+        V[:, ax] = np.array(c["signs"], float) * c["h"] + 0.25
+        F = np.array([[0, 2, 1]] if c["flip"] else [[0, 1, 2]])
+        n = np.zeros(3)
+        n[ax] = c["scale"]
+        org = np.zeros(3)
+        org[ax] = 0.25
+        tm = trimesh.Trimesh(V, F, process=False)
+        lines = intersections.mesh_plane(tm, n, org)
+        o["nlines"] = len(lines)
+        o["seg_len"] = float(np.linalg.norm(lines[:, 0] - lines[:, 1], axis=1).sum()) if len(lines) else 0.0
+        v2, f2, _ = intersections.slice_faces_plane(V, F, n, org)
+        o["nfaces"] = len(f2)
+        o["area"] = float(trimesh.triangles.area(v2[f2]).sum()) if len(f2) else 0.0
+        o["area0"] = float(tm.area)
+        o["min_side"] = float(np.dot(v2[f2].reshape(-1, 3) - org, n).min()) if len(f2) else 0.0
+        v3, f3, _ = intersections.slice_faces_plane(V, F, -n, org)
+        o["area_opp"] = float(trimesh.triangles.area(v3[f3]).sum()) if len(f3) else 0.0
+        return o
+    m = meshes()[c["mesh"]]
     if k in ("section", "subset"):
         n = np.array(c["normal"], float) * c.get("scale", 1)
         org = np.array(c["origin"], float)
@@ -186,8 +215,14 @@ def run_case(c):
 
 def oracle(c, o):
     if "err" in o:
-        return {"kind": c["kind"], "fail": "raised", "err": o["err"], "mesh": c["mesh"]}
+        return {"kind": c["kind"], "fail": "raised", "err": o["err"], "mesh": c.get("mesh")}
     k = c["kind"]
+    if k == "pattern":
+        if o["min_side"] < -1e-12:
+            return {"kind": k, "check": "slice-reaches-the-negative-side", "signs": c["signs"]}
+        if abs(o["area"] + o["area_opp"] - o["area0"]) > 1e-12:
+            return {"kind": k, "check": "opposite-slices-do-not-add-up", "signs": c["signs"]}
+        return None
 
     def bad(what, **kw):
         d = {"kind": k, "check": what}
@@ -233,6 +268,28 @@ def oracle(c, o):
             return bad("multi-plane-slice-differs-from-sequential-slices", cap=c["cap"])
         if "seq_volume" in o and abs(o["volume"] - o["seq_volume"]) > 1e-8 * max(1, abs(o["seq_volume"])):
             return bad("multi-plane-capped-volume-differs-from-sequential", cap=c["cap"])
+    return None
+
+
+def model_request(c, o):
+    if c["kind"] != "pattern":
+        return None
+    return {"p": "C11", "op": "pattern", "signs": c["signs"]}
+
+
+def compare(c, o, m):
+    if "err" in m:
+        return "model error: " + str(m["err"])
+    if "err" in o:
+        return None
+    if m["segments"] != o["nlines"]:
+        return f"mesh_plane on signs {c['signs']}: model emits {m['segments']} segment(s), code {o['nlines']}"
+    if sum(1 for x in c["signs"] if x == 0) < 3:
+        if m["kept"] != o["nfaces"]:
+            return f"slice_faces_plane on signs {c['signs']}: model keeps {m['kept']} face(s), code {o['nfaces']}"
+        whole = abs(o["area"] - o["area0"]) < 1e-12
+        if m["inside"] != whole and o["nfaces"]:
+            return f"slice_faces_plane on signs {c['signs']}: model inside={m['inside']}, code kept the whole face={whole}"
     return None
 
 
